@@ -823,3 +823,74 @@ class SubvolumeGetitem(ReadContract):
 for _gv, _incs in ((True, (1, 1)), (True, (2, 3)), (False, (2, 3))):
     register(type('SubvolumeGetitem', (SubvolumeGetitem,), dict(given=_gv, incs=_incs)), 'accessors.py::SubvolumeAccessor.__getitem__', ['C02', 'C13', 'C14'], [CFG_DEFAULT[3], CFG_ZSLICE[0]], modes=('file',),
              tag=('slices given' if _gv else 'all default') + f',increments {_incs[0]}/{_incs[1]}')
+
+
+# ---------------------------------------------------------------------------------------------
+# reads by sample TIME / DEPTH (C02 / C14): the coordinate is looked up on the sample axis (exact reals, S3a)
+
+from pyvc.values import mk_float, zreal      # noqa: E402
+
+
+def _on_axis_coord(rd, k, half=False):
+    """the sample-axis value of (possibly half-integer) position k:  z0 + k*dz"""
+    z0, dz = rd.fields['zslices'].prog
+    kk = z3.ToReal(zint(k)) + (z3.RealVal('1/2') if half else 0)
+    return mk_float(zreal(z0) + kk * zreal(dz))
+
+
+class GetTraceByCoord(GetTrace):
+    """get_trace_by_coord(i, t_min, t_max) with t_min = axis[ka], t_max = axis[kb] (kb = n allowed: one interval past the end):
+    IndexError iff not (trace in range and 0 <= ka < kb <= n); otherwise the samples ka .. kb-1 of trace i.  Times between two samples: IndexError"""
+    off_axis = False
+    modular_use = False
+
+    def inputs(self, c):
+        g, rd = self.reader(c)
+        ka = c.sym_int('ka', name='min_sample_position'); kb = c.sym_int('kb', name='max_sample_position')
+        d = dict(self=rd, _g=g, index=c.sym_int('index', name='index'), min_sample_no=_on_axis_coord(rd, ka, half=self.off_axis), max_sample_no=_on_axis_coord(rd, kb), _ka=ka, _kb=kb)
+        return d
+
+    def bounds(self, g, a):
+        return a['_ka'], a['_kb']
+
+    def raises(self, c, a):
+        g = a['self'].geo
+        if self.off_axis:
+            return {'IndexError': True}
+        return {'IndexError': Not(self.ok(g, a))}
+
+    def post(self, c, a, result):
+        b = dict(a)
+        b['min_sample_id'], b['max_sample_id'] = a['_ka'], a['_kb']
+        GetTrace.post(self, c, b, result)
+
+
+for _off in (False, True):
+    register(type('GetTraceByCoord', (GetTraceByCoord,), dict(off_axis=_off)), 'read.py::SgzReader.get_trace_by_coord', ['C02', 'C14'], [CFG_DEFAULT[3], CFG_ZSLICE[0]], modes=('file',),
+             tag='between samples' if _off else 'on the axis')
+
+
+class ReadZsliceCoord(ReadZslice):
+    """read_zslice_coord(t) with t = axis[k]: exactly read_zslice(k); IndexError iff k is not a sample position (or t lies between samples)"""
+    off_axis = False
+
+    def inputs(self, c):
+        g, rd = self.reader(c)
+        k = c.sym_int('k', name='sample_position')
+        return dict(self=rd, _g=g, zslice_no=_on_axis_coord(rd, k, half=self.off_axis), _k=k)
+
+    def raises(self, c, a):
+        g = a['self'].geo
+        if self.off_axis:
+            return {'IndexError': True}
+        return {'IndexError': Not(in_range(a['_k'], 0, g.nZ))}
+
+    def post(self, c, a, result):
+        b = dict(a)
+        b['zslice_id'] = a['_k']
+        ReadZslice.post(self, c, b, result)
+
+
+for _off in (False, True):
+    register(type('ReadZsliceCoord', (ReadZsliceCoord,), dict(off_axis=_off)), 'read.py::SgzReader.read_zslice_coord', ['C02', 'C14'], [CFG_DEFAULT[3], CFG_ZSLICE[0]], modes=('file',),
+             tag='between samples' if _off else 'on the axis')
